@@ -143,6 +143,45 @@ def h_reset(I):
             ('re-running the power flow after reset reproduces the solution', bool(np.max(np.abs(np.array(ss.dae.y) - y1)) < 1e-9))]
 
 
+def h_fix_view(I):
+    """what load_ss does after unpickling: every variable array of every model must be re-attached to the DAE arrays"""
+    import andes.system as SY
+    ss = cases.build([1, 2, 3], lines=[(1, 2), (2, 3), (1, 3)], slacks=[dict(bus=1, idx='S')], pvs=[dict(bus=2, idx='G', p0=0.3)],
+                     pqs=[dict(bus=3, idx='D', p0=0.4, q0=0.1)], setup=False,
+                     extra=[('GENCLS', dict(bus=2, gen='G', idx='M2', M=6.0, D=1.0, xd1=0.3)), ('GENCLS', dict(bus=1, gen='S', idx='M1', M=8.0, D=1.0, xd1=0.25)),
+                            ('TGOV1', dict(syn='M2', idx='T2'))])
+    ss.setup()
+    ss.PFlow.run()
+    ss.TDS.config.no_tqdm = 1
+    ss.TDS.init()
+    dae = ss.dae
+    # unpickling turns views into private copies
+    for m in ss.models.values():
+        if m.n:
+            for var in m.cache.all_vars.values():
+                var.v = np.array(var.v)
+                var.e = np.array(var.e)
+    dae.x, dae.y = I.to_obj(np.array(dae.x)), I.to_obj(np.array(dae.y))
+    dae.f, dae.g = I.to_obj(np.array(dae.f)), I.to_obj(np.array(dae.g))
+    SY.fix_view_arrays(ss)
+    tx, ty = I.arr(*[f'x{i}' for i in range(dae.n)]), I.arr(*[f'y{i}' for i in range(dae.m)])
+    dae.x[:] = tx
+    dae.y[:] = ty
+    out = []
+    for mn, m in ss.models.items():
+        if not m.n:
+            continue
+        for vn, var in list(m.states.items()) + list(m.algebs.items()):     # external variables are copies by design (vars_to_models)
+            a = [int(k) for k in var.a]
+            if not a or a != list(range(a[0], a[0] + len(a))):
+                continue                      # scattered addresses are copied by vars_to_models, not viewed
+            src = tx if var.v_code == 'x' else ty
+            out.append((f'after re-attaching, {mn}.{vn} shows the values of the DAE array it belongs to',
+                        len(var.v) == len(a) and AND(*[EQ(var.v[k], src[a[k]], tol=0.0) for k in range(len(a))])))
+            out.append((f'the equation inputs of {mn} read the re-attached array of {vn}', m._input[vn] is var.v))
+    return out
+
+
 def job(spec):
     import logging
     logging.getLogger('andes').setLevel(60)
@@ -153,6 +192,8 @@ def job(spec):
         return H.run(f'TDS.init_resume from an exit state [pointer={arg}]', h_resume(arg), timeout_ms=20000, region=lambda v, c: c)
     if kind == 'split':
         return H.run('split vs unsplit run (fixed step 0.1, tf = 0.25, one event)', h_split_vs_unsplit, timeout_ms=30000, max_paths=3000, region=lambda v, c: c)
+    if kind == 'fixview':
+        return H.run('fix_view_arrays after detaching every array', h_fix_view, region=lambda v, c: c.split(', ')[-1] if ', ' in c else c)
     if kind == 'reset':
         return H.run('System.reset + setup', h_reset, region=lambda v, c: c)
 
@@ -165,14 +206,15 @@ def main():
                     'repeated across the boundary; bounded split-vs-unsplit cross-check; System.reset re-addressing.')
     import andes.routines.tds as TD
     import andes.system as SY
-    ck.encodes(TD.TDS.run, TD.TDS.init_resume, TD.TDS.calc_h, TD.TDS._calc_h_first, TD.TDS.do_switch, SY.System.reset, SY.System.setup)
+    ck.encodes(TD.TDS.run, TD.TDS.init_resume, TD.TDS.calc_h, TD.TDS._calc_h_first, TD.TDS.do_switch, SY.System.reset, SY.System.setup,
+               SY.fix_view_arrays, SY.System.set_var_arrays)
     thorough = core.tier() == 'thorough'
     ck.bound(pending_events=3, resume='one call from an arbitrary exit state', cross_check='tstep = 0.1, tf = 0.25, split time and event time symbolic, <= 6 iterations per segment, <= 3000 paths')
     ck.stub('loop-body stubs of C06 (itm_step as success flag, store/switch_action recorders, progress bar cut)')
     ck.assume('time is a real number', 'the C06 inductive step (checked by C06) carries the invariant through the loop')
-    ck.out('dill snapshots, fix_view_arrays after unpickling, continuation in another process -- object-graph serialisation is not encodable',
+    ck.out('the dill serialisation itself and continuation in another process -- object-graph serialisation is not encodable (the repair step fix_view_arrays IS checked: arrays detached as unpickling leaves them)',
            'trajectory equality up to discretisation error (numerics)')
-    jobs = [('exit', k) for k in range(4)] + [('resume', k) for k in range(4)] + [('reset', 0), ('split', 0)]
+    jobs = [('exit', k) for k in range(4)] + [('resume', k) for k in range(4)] + [('reset', 0), ('split', 0), ('fixview', 0)]
     res = core.pmap(job, jobs)
     ck.merge(res)
     ck.extra['states'] = ck.paths
